@@ -400,8 +400,10 @@ def replay(ctx, path):
 
 MANIFEST = dict(
     technique='Coq proof (hand-written recognisers for the literal regular expressions, parse/print transliterations of the five temporal kinds; print-then-parse identity, normal form, rejection) with model/code correspondence',
-    text='Theorems (coq/Props/C14.v, closed under the global context): for every date (any year -999999999..999999999), time (nanoseconds 0..999999999, every offset -14:59:59..+14:59:59, named zones of the database), '
-         'date and time, days-and-time and years-and-months duration, parsing the printed text gives the value back; printed durations are in normal form; a parsed value has in-range components. '
+    text='Theorems (coq/Props/C14.v, 19, closed under the global context; all for ALL values, no finite grids): parsing the printed text gives the value back for every date (any year -999999999..999999999), '
+         'every time (any hour/minute/second, every nanosecond count 0..999999999: the nine digits with trailing zeros stripped read back as the same number; every offset -14:59:59..+14:59:59, Z, no zone, named zones of the database), '
+         'every date and time (also through the built-in function), every days-and-time duration of either sign with days <= 2^64-1 (bound shown tight) and every years-and-months duration with years <= 2^64-1, '
+         'also through duration() which tries years-and-months first; printed durations are in normal form; a parsed value has in-range components (fraction below one second). '
          'Tied to feel/src/temporal/*.rs through date()/time()/date and time()/duration()/@"..."/string() on every whole-minute offset, every chrono-tz zone id, year and fraction grids and single-character corruptions.',
     note='Trusted: Coq kernel + vm_compute, hand-written model (correspondence-checked, not verified), regex crate and chrono-tz membership (modelled), harness, Python driver. '
          'Known finding: a decimal point without digits is accepted in a duration (PT0.S), pinned by the repository\'s tests.')
